@@ -3,8 +3,36 @@
    in Model/Template.v / TemplateRun.v) and their rendering; the checks decide, for every generated string, "accepted =>
    its text is the rendering of the accepted structure" and "rendering of a well-formed template => accepted with that
    structure" against both parsers, and soundness of the trie. *)
-From GB Require Import Model.Template Model.TemplateRun Proofs.TemplateProofs.
+From GB Require Import Model.Template Model.TemplateRun Proofs.TemplateProofs Proofs.TemplateParseProofs.
 Open Scope N_scope.
+
+(* every template of the language, written out, is accepted by the routing parser, which gives it exactly the structure, the
+   variable field paths and the verb it was written from: tokenizer (three states), verb extraction and recursive descent,
+   for ALL well-formed templates (literals of path characters other than the wildcards, identifiers, one or more flat inner
+   segments per variable, any verb after a variable, a colon-free verb otherwise) *)
+Theorem c20_parse_render : forall t, good_template t = true -> gw_parse false (render t) = Some t.
+Proof. exact parse_render. Qed.
+Print Assumptions c20_parse_render.
+
+(* hence the text determines the structure: two different templates never have the same text *)
+Theorem c20_render_injective : forall t1 t2, good_template t1 = true -> good_template t2 = true -> render t1 = render t2 -> t1 = t2.
+Proof.
+  intros t1 t2 G1 G2 E. pose proof (parse_render t1 G1) as P1. pose proof (parse_render t2 G2) as P2. rewrite E in P1. congruence.
+Qed.
+Print Assumptions c20_render_injective.
+
+(* at the token level: the parser returns the segments whose tokens it is given, whatever follows them *)
+Theorem c20_segments_parse : forall segs f rest, forallb good_seg segs = true -> segs <> [] -> not_tok c_slash rest ->
+  (length segs + fold_right Nat.max O (map inner_len segs) <= f)%nat ->
+  gw_segments false f (toks_segs segs ++ rest) = Some (segs, rest).
+Proof. exact segments_parse. Qed.
+Print Assumptions c20_segments_parse.
+
+(* the tokenizer with the verb cut off the last token *)
+Theorem c20_tokenize_text : forall segs verb, segs <> [] -> forallb good_seg segs = true -> is_literal verb = true -> verb_ok segs verb = true ->
+  gw_tokenize (text_segs segs ++ vsuffix verb) = (toks_segs segs ++ [eof], verb).
+Proof. exact tokenize_text. Qed.
+Print Assumptions c20_tokenize_text.
 
 (* the structure a route template was compiled from can be read back from its opcodes (what the check does with the real
    compiler's output): flat segments *)
